@@ -135,7 +135,10 @@ def split_resets(lines):
     return runs
 
 
-def validate(name, scen, nw, struct, runs, wd, tag, invariants):
+def validate(name, scen, nw, struct, runs, wd, tag, invariants, markers=True):
+    if not markers:
+        runs = [[e for e in r if e.get("ev") not in ("pt", "mpt")] for r in runs]
+        tag = tag + "_obs"
     mod = f"Trp_{tag}"
     tasks = sorted(scen["scripts"])
     script = "[t \\in c_Tasks |-> " + " ".join(
@@ -152,6 +155,7 @@ def validate(name, scen, nw, struct, runs, wd, tag, invariants):
                 f"  FoldFirst = {b(struct['fold_first'])}\n  Recheck = {b(struct['recheck'])}\n"
                 f"  HandOver = {b(struct['hand_over'])}\n  DropAfter = TRUE\n"
                 f"  FlagUnderLock = {b(struct['flag_under_lock'])}\n  LocalCap = 256\n  BucketCap = 128\n"
+                f"  Markers = {b(markers)}\n"
                 "CONSTRAINT Track\nPOSTCONDITION TraceAccepted\nCHECK_DEADLOCK FALSE\nINVARIANTS\n  "
                 + " ".join(invariants) + "\n")
     stats = dict(states=0, transitions=0, wall=0.0, events=0)
@@ -243,6 +247,17 @@ def pool_part(chk, rng, thorough, wd, invariants, scenarios=None, big=True):
             chk.add_trace_stats(f"thread pool [{n}, {nw} workers]", acc + len(rej), st)
             chk.evaluations += len(runs)
             for (r, k, ev, reason) in rej:
+                if reason == "unmatched" and ev is not None and ev.get("ev") in ("pt", "mpt"):
+                    # the first unmatched event is an internal hook point: is the execution still explained when only
+                    # what the tasks and the caller observe (polls, effects, results of run(), drop) is matched?
+                    a2, rej2, _ = validate(n, sc, nw, struct, [r], wd, f"{prop}_{n}_{nw}", invariants, markers=False)
+                    if not rej2:
+                        chk.notes.append(f"thread pool scenario {n} on {nw} workers: the order of internal hook points "
+                                         f"departs from Pool.tla at {json.dumps(ev)} but polls, effects, results and the "
+                                         f"invariants are those of a behaviour of the specification: not a violation of "
+                                         f"the property (Pool.tla may be out of date for mt_executor.rs)")
+                        continue
+                    (r, k, ev, reason) = rej2[0]
                 chk.violation(f"execution of the real thread pool (scenario {n}, {nw} workers) is not a behaviour of "
                               f"Pool.tla: {reason} at event {k}: {json.dumps(ev)}",
                               dict(engine="pool", scenario=n, nw=nw, structure=struct, trace=r[:k + 1][-80:]),
